@@ -19,3 +19,64 @@ R.contract(
     props=["C20"],
     note="extra-field wrappers are created in a comprehension over the callbacks: each must bind its own callback",
 )
+
+# ---- register(): one complete row per registration, flushed before it returns (C20) ---------------------------------
+# Ghost model of the buffered file the csv writer wraps, at row granularity: rows handed to writerow() are pending until
+# flush() moves them to disk.  (csv.writer serialises one row per writerow call, quoting embedded separators and line
+# breaks: assumed, exercised on real files by the bounded driver.)
+import specs.tracking  # noqa: F401,E402  (declaration order)
+
+R.cls("TextFile", fields={"disk_rows": "int", "pending_rows": "int", "last_width": "int"})
+R.cls("CsvWriter", fields={"file": "TextFile"})
+R.cls("FieldMapper", fields={})
+R.opaque.add("Cell")
+R.contract(
+    "FieldMapper.__call__",
+    params=dict(self="FieldMapper", t="ProgressTracker", i="Individual", p="Problem"),
+    returns="~Cell",
+    modifies=[],
+    allocates=False,
+    verify=False,
+    note="a configured field extractor: computes one cell from (tracker, individual, problem) without writing to the heap (assumed)",
+)
+R.contract(
+    "CsvWriter.writerow",
+    params=dict(self="CsvWriter", row="list[~Cell]"),
+    returns="None",
+    ensures={"one_more_pending": "self.file.pending_rows == old(self.file.pending_rows) + 1", "as_wide_as_the_row": "self.file.last_width == len(row)"},
+    modifies=["self.file.pending_rows", "self.file.last_width"],
+    allocates=False,
+    verify=False,
+)
+R.contract(
+    "TextFile.flush",
+    params=dict(self="TextFile"),
+    returns="None",
+    ensures={"pending_reach_disk": "self.disk_rows == old(self.disk_rows) + old(self.pending_rows)", "buffer_empty": "self.pending_rows == 0"},
+    modifies=["self.disk_rows", "self.pending_rows"],
+    allocates=False,
+    verify=False,
+)
+R.cls("CSVSearchRecorder", bases=["SearchRecorder"], file=REC,
+      fields={"csv_file": "TextFile", "csv_writer": "CsvWriter", "fields": "dict[~Str,FieldMapper]", "only_record_best_individuals": "bool", "header_printed": "bool"})
+R.contract(
+    "CSVSearchRecorder.register",
+    file=REC,
+    params=dict(self="CSVSearchRecorder", tracker="ProgressTracker", individual="Individual", problem="Problem", is_best="bool"),
+    defaults={"is_best": "False"},
+    returns="None",
+    requires={
+        "writer_wraps_the_file": "same(self.csv_writer.file, self.csv_file)",
+        "nothing_buffered": "self.csv_file.pending_rows == 0",
+    },
+    ensures={
+        "one_row_per_registration": "implies(not self.only_record_best_individuals or is_best, "
+        "self.csv_file.disk_rows == old(self.csv_file.disk_rows) + 1 and self.csv_file.last_width == len(keysof(self.fields)))",
+        "nothing_when_filtered": "implies(self.only_record_best_individuals and not is_best, self.csv_file.disk_rows == old(self.csv_file.disk_rows))",
+        "complete_rows_only": "self.csv_file.pending_rows == 0",
+    },
+    modifies=["self.csv_file.disk_rows", "self.csv_file.pending_rows", "self.csv_file.last_width"],
+    props=["C20"],
+    note="one row per registered individual (only flagged ones when so configured), one cell per configured field, and nothing left in the "
+    "buffer when register() returns: an interruption between registrations leaves header + complete rows",
+)
